@@ -111,6 +111,11 @@ impl Array4 {
         1 << self.lg_config_k
     }
 
+    /// Whether the HIP accumulator is invalid (the sketch is a merge result).
+    pub(super) fn is_out_of_order(&self) -> bool {
+        self.estimator.is_out_of_order()
+    }
+
     /// Get the current HIP accumulator value
     pub(super) fn hip_accum(&self) -> f64 {
         self.estimator.hip_accum()
